@@ -96,7 +96,7 @@ end
 
 /-! ### `types.`-qualification: what `add_types_prefix` is meant to do -/
 def isBuiltinName (n : Str) : Bool :=
-  n ∈ ["void", "string", "number", "boolean", "any", "unknown", "null", "undefined", "never", "object"].map String.toList
+  n ∈ [cl!"void", cl!"string", cl!"number", cl!"boolean", cl!"any", cl!"unknown", cl!"null", cl!"undefined", cl!"never", cl!"object"]
 
 mutual
 /-- qualify every name that is not a TS built-in (mapped names have become built-ins already) -/
